@@ -256,7 +256,12 @@ func KConclude(prop, tier, engine, rule string, assumptions []string, sum *KSumm
 	WriteEvidence(&Evidence{PropertyID: prop, Tier: tier, Seed: Seed(), Level: "model_checking", WallS: sum.Wall, Violations: nvio, Assumptions: assumptions, Coverage: cov})
 	fmt.Printf("%s %s: states=%d evaluations=%d sequences=%d validated=%d exhaustive=%v violations=%d wall=%.1fs\n", prop, tier, sum.States, sum.Evaluations, sum.Sequences, sum.Validated, cov["exhaustive"], nvio, sum.Wall)
 	if len(sum.HarnessErrs) > 0 {
+		seenErr := map[string]bool{}
 		for _, e := range sum.HarnessErrs {
+			if seenErr[e] || len(seenErr) > 10 {
+				continue
+			}
+			seenErr[e] = true
 			fmt.Println("HARNESS-ERROR:", firstLines(e, 8))
 		}
 		if exit == 0 {
